@@ -321,3 +321,127 @@ func TestC09Free(t *testing.T) {
 		}
 	}
 }
+
+// ---- closing from everywhere at once while Close methods fail ----
+
+// TestC09CloseFailures: a shutdown in which everybody closes what they hold -
+// the server its provider, every request its scope, twice - while Close methods
+// of instances fail or panic: every one of these calls returns.
+func TestC09CloseFailures(t *testing.T) {
+	col := evid.New("C09", "concurrent-closes-with-failing-close-methods", "configurations biased to disposable services in which the Close methods of a random third of the registrations return an error and those of another random part panic; a sequential history over a scope tree (explicit closes in between, contexts nobody cancels), then free-running goroutines close the provider and (twice each) every scope that was created, all started at once; oracle: every Close call returns within 20 s (no deadlock) without panicking, and no instance has received more than one Close call; non-trivial = a failing or panicking Close method ran during the concurrent phase in a scope that had two closers")
+	defer col.Flush()
+	rapid.Check(t, func(rt *rapid.T) {
+		cfg := kit.GenConfig(rt, dispOpts())
+		var failing, panicking []int
+		x, err := startRunWith(cfg, nil, func(w *kit.World) {
+			w.ClosePanicRegs = map[int]bool{}
+			w.CloseFailRegs = map[int]bool{}
+			for _, r := range w.Cfg.Regs {
+				if r.Form == kit.FormInstance {
+					continue
+				}
+				switch rapid.IntRange(0, 4).Draw(rt, "closeBehaviour") {
+				case 0, 1:
+					w.CloseFailRegs[r.ID] = true
+					failing = append(failing, r.ID)
+				case 2:
+					w.ClosePanicRegs[r.ID] = true
+					panicking = append(panicking, r.ID)
+				}
+			}
+		})
+		if err != nil {
+			rt.Fatal(err)
+		}
+		if x.Build.Err != nil || x.Build.Panic != nil {
+			col.Case(false, cfg.String(), nil, "build-failed(not judged here)")
+			return
+		}
+		x.genHistory(rt, histOpts{MaxSteps: 14, MaxDepth: 3, CloseScopes: true, CtxKinds: []int{0, 1}, NoCollEdits: true, NoRebuild: true, NoProvClose: true})
+		providerFirst := rapid.Bool().Draw(rt, "providerFirst")
+		canon := fmt.Sprintf("%s\nclose methods that fail: registrations %v, that panic: %v; then everything is closed concurrently (provider first: %v)", x.describe(), failing, panicking, providerFirst)
+		before := map[*kit.Entry]int{}
+		for _, e := range x.W.AllEntries() {
+			before[e] = e.CloseCount()
+		}
+		type res struct {
+			what string
+			pv   any
+			done chan struct{}
+		}
+		var calls []*res
+		start := make(chan struct{})
+		launch := func(what string, fn func() error) {
+			r := &res{what: what, done: make(chan struct{})}
+			calls = append(calls, r)
+			go func() {
+				defer close(r.done)
+				defer func() { r.pv = recover() }()
+				<-start
+				_ = fn()
+			}()
+		}
+		if providerFirst {
+			// the owner closes first, the users' own Close calls arrive afterwards
+			r := &res{what: "the provider", done: make(chan struct{})}
+			calls = append(calls, r)
+			go func() {
+				defer close(r.done)
+				defer func() { r.pv = recover() }()
+				_ = x.R.P.Close()
+			}()
+			kit.WaitOrTimeout(r.done, 20*time.Second)
+		} else {
+			launch("the provider", x.R.P.Close)
+		}
+		for _, tag := range x.R.Tags() {
+			rec := x.R.ScopeRecOf(tag)
+			if tag == 0 || rec == nil || !rec.Created || rec.S == nil {
+				continue
+			}
+			launch(fmt.Sprintf("scope s%d", tag), rec.S.Close)
+			launch(fmt.Sprintf("scope s%d (second closer)", tag), rec.S.Close)
+		}
+		close(start)
+		var f *Failure
+		deadline := time.After(20 * time.Second)
+		for _, r := range calls {
+			select {
+			case <-r.done:
+				if r.pv != nil && f == nil {
+					f = fail("C09", "no-panic", "concurrent-close", "Close of %s panicked: %v", r.what, r.pv)
+				}
+			case <-deadline:
+				if f == nil {
+					f = fail("C09", "no-hang", "concurrent-close", "Close of %s has not returned 20 s after every scope and the provider were closed concurrently", r.what)
+				}
+			}
+			if f != nil && f.Oracle == "no-hang" {
+				break
+			}
+		}
+		ran := false
+		if f == nil {
+			for _, e := range x.W.AllEntries() {
+				if e.Inv == nil {
+					continue // an instance value: not made by the container
+				}
+				if e.CloseCount() > 1 {
+					f = fail("C09", "lifetime-rules", "closed-twice", "%v received %d Close calls", e, e.CloseCount())
+					break
+				}
+				if e.CloseCount() != before[e] && (x.W.CloseFailRegs[e.Reg] || x.W.ClosePanicRegs[e.Reg]) && e.ScopeTag != 0 {
+					ran = true
+				}
+			}
+		}
+		col.Case(ran, canon, canon, fmt.Sprintf("provider-first=%v", providerFirst))
+		if f != nil {
+			if isKnown(f) {
+				col.Excluded()
+				return
+			}
+			rt.Fatalf("VIOLATION %s\n%s", f, canon)
+		}
+	})
+}
